@@ -123,6 +123,14 @@ func (g *gen) fieldArith(pk string, m *big.Int) {
 	// exponentiation
 	exps := []*big.Int{small(0), small(1), small(2), small(3), small(5), small(7), sub(m, small(1)), sub(m, small(2)), m, add(m, small(1)),
 		new(big.Int).Rsh(sub(m, small(1)), 1), pow2(64), sub(pow2(64), small(1)), pow2(256), pow2(511), sub(pow2(512), small(1))}
+	// exponents with Fermat structure (x^(m-1) = 1 for x != 0, but 0^e = 0 for every e > 0): multiples of m-1 and their
+	// neighbours, where a reduction of the exponent modulo m-1 goes wrong exactly for the base 0
+	m1 := sub(m, small(1))
+	for _, k := range []int64{2, 3, 4, 1 << 10} {
+		km := new(big.Int).Mul(m1, small(k))
+		exps = append(exps, km, add(km, small(1)), sub(km, small(1)))
+	}
+	exps = append(exps, new(big.Int).Mul(m1, pow2(200)), new(big.Int).Mul(m, small(2)), new(big.Int).Mul(m1, m1))
 	for i := 0; i < g.n(60, 600); i++ {
 		x := r.felem(m)
 		var e *big.Int
